@@ -71,6 +71,27 @@ def insertions(draw, d, next_to_ref=False):
             v = draw(st.one_of(V.inst, GS.ODD))
         out.append({"pos": draw(st.integers(0, 50)), "name": n, "value": v, "kind": kind,
                     "front": draw(st.booleans())})
+    k = draw(st.integers(0, 11))
+    if k == 0:
+        # a crowd: forty unknown members at one and the same position (vendor extensions, documentation fields)
+        pos = draw(st.integers(0, 50))
+        front = draw(st.booleans())
+        for i in range(40):
+            out.append({"pos": pos, "name": "x-crowd-%d" % i, "value": draw(st.sampled_from([i, "v", None, {"type": "null"}, [False]])),
+                        "kind": "crowd", "front": front})
+    elif k == 1:
+        # a subschema relabelled as another draft's: `$schema` is not a keyword below the root, and what only that other
+        # draft would honour stays foreign
+        pos = draw(st.integers(0, 50))
+        od = draw(st.sampled_from([x for x in impl.DRAFTS if x != d]))
+        ids = {3: "http://json-schema.org/draft-03/schema#", 4: "http://json-schema.org/draft-04/schema#",
+               6: "http://json-schema.org/draft-06/schema#", 7: "http://json-schema.org/draft-07/schema#"}
+        from ..oracle import spec
+        theirs = sorted(n for n in spec.KW[od] if n not in spec.KW[d] and n in HOT and n in names)
+        out.append({"pos": pos, "name": "$schema", "value": ids[od], "kind": "relabel", "front": draw(st.booleans())})
+        if theirs:
+            n = draw(st.sampled_from(theirs))
+            out.append({"pos": pos, "name": n, "value": copy.deepcopy(HOT[n][0]), "kind": "relabel", "front": False})
     return out
 
 
@@ -158,7 +179,7 @@ class C10(Prop):
             "inserted).")
     ASSUMPTIONS = ["names consulted by the draft's own keywords (exclusiveMinimum/Maximum in 3/4, required in 3, "
                    "then/else in 7) and the draft's own id keyword are not foreign"]
-    GATES = {"kind:own-next-to-ref": 100, "kind:vocab": 300, "kind:other-id": 100, "kind:later": 100, "next-to-ref": 50, "foreign-id-on-enclosing-schema": 40, "structural:alt-container": 40, "structural:root-foreign-id-empty-base": 10, "hot": 300, "invalid": 300}
+    GATES = {"kind:own-next-to-ref": 100, "kind:vocab": 300, "kind:other-id": 100, "kind:later": 100, "next-to-ref": 50, "foreign-id-on-enclosing-schema": 40, "structural:alt-container": 40, "kind:crowd": 500, "kind:relabel": 50, "structural:root-foreign-id-empty-base": 10, "hot": 300, "invalid": 300}
     MIN_NONTRIVIAL = 300
 
     def strategy(self, tier):
